@@ -51,26 +51,30 @@ META = {
         "first level that is not open and is a violation because levels may be skipped) are simulated over the key classes {<L, =L, >L} and must leave "
         "(ancestors kept, own level = new section, deeper levels dropped) - range bounds are level+c, constants or max(open levels)+c, and a constant bound only "
         "covers the deeper levels if the heading level is statically bounded, which it is not once the heading offset is added; the MD_HEADING_NON_CONSECUTIVE "
-        "warning (one or several sites) is emitted at most once per path and, evaluated on the grid parent 0..8 x skip 1..12, exactly when skip >= 2 - leaves of "
-        "its condition that read renderer state changed during the render are free booleans and the verdict must hold for every value (a memo of reported skips "
+        "warning (one or several sites) is emitted at most once per path and, evaluated before the map is changed on the grid (deepest open level M 0..8, new level L "
+        "1..10, every consistent parent p), exactly when L - M >= 2: M = max(open levels) is the level of the preceding heading, so siblings of a heading reached by a "
+        "skip and steps back down are not reported again (repair 2e8531b; comparing with the parent level instead is a violation) - its tests are linear forms of L, "
+        "p, M and single-assignment locals; other leaves that read renderer state changed during the render are free booleans and the verdict must hold for every value (a memo of reported skips "
         "is therefore a violation); the map starts as {0: document} (in setup_render or a helper only it calls); every other change of the map during a render "
         "must restore a value read from it in the same function or be bracketed by its own save(copy)/restore. "
         "R4: the context manager around _render_tokens in nested_render_text saves _heading_offset, md_env[temp_root_node] and (by copy) _level_to_section before "
-        "the yield and restores each to its saved name under the same guard (plain, try/finally, several branches that cover every path, or += / -= inverse update); a "
-        "restore under a strictly stronger condition than the change is a violation when the extra test is on a nested_render_text parameter whose default falsifies "
-        "it and some caller relies on that default; every other change of the offset or "
+        "the yield and restores each to its saved name under the same guard (plain, try/finally, several branches that cover every path, a restore that also runs where nothing was changed, or += / -= inverse "
+        "update); a restore that is skipped for some caller for which the change happens (facts on nested_render_text parameters evaluated per call site: omitted -> "
+        "default, constant -> value, other explicit argument -> not None) is a violation; a caller that passes no heading offset leaves the offset unchanged (the write "
+        "is skipped under the parameter's default or writes the current offset itself; repair fce582c), and inside an include the offset in force is the enclosing "
+        "offset + the :heading-offset: option exactly once (composed by the include or by nested_render_text); while a temp root is set the level map is re-rooted at "
+        "it (every open level -> the temp root, or {0: root}; repair 4629fdf), so sections of a match_titles body are attached to the directive's node; every other change of the offset or "
         "the temp root during a render must be such a pair itself; a non-None temp_root_node is passed only as `<node> if <flag> else None` where <flag> is traced "
         "to the match_titles parameter of a docutils-state nested_parse and <node> is the argument of the enclosing current_node_context - any other caller "
-        "passing a temp root is a violation; the include mock passes the heading-offset option; the level registered by the section path is exactly tag digit + "
+        "passing a temp root is a violation; the level registered by the section path is exactly tag digit + "
         "heading offset, the tag digit being int() of tag[1] / tag[1:] / tag.lstrip('h') / tag.removeprefix('h'); a level derived from token.markup is decided against "
         "the parsed markdown-it sources (every heading_open producer must set markup to exactly <level> characters - the setext rule does not, so it is a violation) "
         "(thorough: markdown-it pushes heading_open with 'h'+str(level))."
     ),
     "not_decided": (
         "the resulting nesting for all level sequences as a computed value; what the inline renderers reached through render_children do; third-party directives "
-        "that nested-parse into a nodes.section container; where sections created under a match_titles temp root are attached (to the outer open section selected "
-        "from the level map, not to that node - by design of the code, listed as evidence); that the heading offset is replaced, not accumulated, by nested renders; "
-        "warning conditions that differ only outside the grid (parent > 8, skip > 12); extra warning conditions on configuration values (answered ANALYSIS-ERROR); "
+        "that nested-parse into a nodes.section container; "
+        "warning conditions that differ only outside the grid (deepest open level > 8, level > 10); extra warning conditions on configuration values (answered ANALYSIS-ERROR); "
         "save/restore conditions that differ in spelling only, e.g. `if x:` vs `if x is not None:` (answered ANALYSIS-ERROR); a level - 1 shortcut that reaches the "
         "parent lookup without a membership test (KeyError territory, answered ANALYSIS-ERROR)"
     ),
@@ -749,7 +753,7 @@ def r1_context_guard(corpus: Corpus, rep: Report, tier: str):
         f"{rh.fq}|temp-root exception",
         rh.site(),
         "a heading directly under the node of a nested parse with match_titles=True takes the section path (by design of the code; "
-        "the section is attached to the outer open section selected from the level map, not to that node)",
+        "R4 checks that the level map is re-rooted at that node for the duration of the nested parse, so the section is attached to it)",
     )
     rep.expect_min("C05.R1", 4, "section construction, level-state update, current_node store, rubric branch")
 
@@ -1067,12 +1071,48 @@ def lin(e: ast.expr, level: str, par: str):
     return None
 
 
+def lin_m(e: ast.expr, level: str, par: str, depth: int = 0):
+    """(a, b, m, c) = a*level + b*parent + m*M + c with M = max(open levels), or None."""
+    if depth > 10:
+        return None
+    if isinstance(e, ast.Call) and dotted(e.func) == "max" and len(e.args) == 1 and _map_keys_iter(e.args[0]) == "keys":
+        return (0, 0, 1, 0)
+    if isinstance(e, ast.Constant) and isinstance(e.value, int) and not isinstance(e.value, bool):
+        return (0, 0, 0, e.value)
+    if isinstance(e, ast.Name):
+        if e.id == level:
+            return (1, 0, 0, 0)
+        if e.id == par:
+            return (0, 1, 0, 0)
+        d = LIN_LOCALS(e.id) if LIN_LOCALS is not None else None
+        return lin_m(d, level, par, depth + 1) if d is not None else None
+    if isinstance(e, ast.UnaryOp) and isinstance(e.op, ast.USub):
+        x = lin_m(e.operand, level, par, depth + 1)
+        return None if x is None else tuple(-v for v in x)
+    if isinstance(e, ast.BinOp) and isinstance(e.op, (ast.Add, ast.Sub)):
+        x, y = lin_m(e.left, level, par, depth + 1), lin_m(e.right, level, par, depth + 1)
+        if x is None or y is None:
+            return None
+        sg = 1 if isinstance(e.op, ast.Add) else -1
+        return tuple(p_ + sg * q_ for p_, q_ in zip(x, y))
+    return None
+
+
 def _linear_compare(test: ast.expr, level: str, par: str):
     if isinstance(test, ast.Compare) and len(test.ops) == 1 and type(test.ops[0]) in REL_TXT:
-        x, y = lin(test.left, level, par), lin(test.comparators[0], level, par)
+        x, y = lin_m(test.left, level, par), lin_m(test.comparators[0], level, par)
         if x is not None and y is not None:
-            return (x[0] - y[0], x[1] - y[1], x[2] - y[2], type(test.ops[0]))
+            return tuple(p_ - q_ for p_, q_ in zip(x, y)) + (type(test.ops[0]),)
     return None
+
+
+def uses_deepest(test: ast.expr, level: str, par: str) -> bool:
+    if isinstance(test, ast.UnaryOp):
+        return uses_deepest(test.operand, level, par)
+    if isinstance(test, ast.BoolOp):
+        return any(uses_deepest(v, level, par) for v in test.values)
+    lc = _linear_compare(test, level, par)
+    return lc is not None and lc[2] != 0
 
 
 def condition_atoms(test: ast.expr, level: str, par: str) -> list[ast.expr]:
@@ -1086,19 +1126,19 @@ def condition_atoms(test: ast.expr, level: str, par: str) -> list[ast.expr]:
     return [test]
 
 
-def eval_level_condition(test: ast.expr, level_v: int, parent_v: int, level: str, par: str, free: dict[str, bool] | None = None) -> bool:
-    """Truth of a branch test for concrete (level, parent level); other leaves take their value from ``free``."""
+def eval_level_condition(test: ast.expr, level_v: int, parent_v: int, level: str, par: str, free: dict[str, bool] | None = None, deepest_v: int = 0) -> bool:
+    """Truth of a branch test for concrete (level, parent level, deepest open level); other leaves take their value from ``free``."""
     if isinstance(test, ast.UnaryOp) and isinstance(test.op, ast.Not):
-        return not eval_level_condition(test.operand, level_v, parent_v, level, par, free)
+        return not eval_level_condition(test.operand, level_v, parent_v, level, par, free, deepest_v)
     if isinstance(test, ast.BoolOp):
-        vals = [eval_level_condition(v, level_v, parent_v, level, par, free) for v in test.values]
+        vals = [eval_level_condition(v, level_v, parent_v, level, par, free, deepest_v) for v in test.values]
         return all(vals) if isinstance(test.op, ast.And) else any(vals)
     if isinstance(test, ast.Constant) and isinstance(test.value, bool):
         return test.value
     lc = _linear_compare(test, level, par)
     if lc is not None:
-        v = lc[0] * level_v + lc[1] * parent_v + lc[2]
-        return {ast.Lt: v < 0, ast.LtE: v <= 0, ast.Gt: v > 0, ast.GtE: v >= 0, ast.Eq: v == 0, ast.NotEq: v != 0}[lc[3]]
+        v = lc[0] * level_v + lc[1] * parent_v + lc[2] * deepest_v + lc[3]
+        return {ast.Lt: v < 0, ast.LtE: v <= 0, ast.Gt: v > 0, ast.GtE: v >= 0, ast.Eq: v == 0, ast.NotEq: v != 0}[lc[4]]
     if free is not None and unparse(test) in free:
         return free[unparse(test)]
     raise Unsupported(f"warning condition `{short(test, 60)}` is not a boolean combination of linear comparisons of level and parent level")
@@ -1424,7 +1464,7 @@ def _simulate(ops, level_bound) -> tuple[dict[str, str], list[str]]:
 
 @rule("C05.R3")
 def r3_ordering_roles(corpus: Corpus, rep: Report, tier: str):
-    rep.rule("C05.R3", "level-state update: parent = max over open levels strictly below; attach once to it; map ends as (ancestors, own=new, deeper dropped); warning iff skip >= 2, at most once; map rooted at {0: document}")
+    rep.rule("C05.R3", "level-state update: parent = max over open levels strictly below; attach once to it; map ends as (ancestors, own=new, deeper dropped); warning iff >= 2 levels deeper than the deepest open level, at most once; map rooted at {0: document}")
     global LIN_LOCALS
     LIN_LOCALS = None
     base, rh, upd = _renderer_funcs(corpus)
@@ -1621,7 +1661,8 @@ def r3_ordering_roles(corpus: Corpus, rep: Report, tier: str):
     else:
         rep.ok("C05.R3", k, site, " then ".join(o[3] for o in ops))
 
-    # (d) the non-consecutive warning: exactly when level - parent >= 2, at most once per path, only here
+    # (d) the non-consecutive warning: exactly when the heading is >= 2 levels deeper than the deepest open level (= the level of
+    # the preceding heading: the map is pruned to it), at most once per path, only here
     def names_member(n: ast.AST) -> bool:
         return any(isinstance(x, ast.Attribute) and x.attr == "MD_HEADING_NON_CONSECUTIVE" for x in ast.walk(n))
 
@@ -1631,7 +1672,7 @@ def r3_ordering_roles(corpus: Corpus, rep: Report, tier: str):
             for n in fi.local_nodes():
                 if isinstance(n, ast.Call) and names_member(n):
                     rep.error("C05.R3", f"MD_HEADING_NON_CONSECUTIVE is also emitted at {fi.module.site(n)} ({fi.qualname}): not understood")
-    k = f"{upd.fq}|non-consecutive warning iff level - parent >= 2"
+    k = f"{upd.fq}|non-consecutive warning iff the heading is 2 or more levels deeper than the deepest open level"
     if not wcalls:
         rep.violation("C05.R3", k, upd.site(), "no MD_HEADING_NON_CONSECUTIVE warning is emitted: an upward skip of more than one level passes silently")
     else:
@@ -1673,33 +1714,45 @@ def r3_ordering_roles(corpus: Corpus, rep: Report, tier: str):
                         free_atoms[unparse(atom)] = hs
             if len(free_atoms) > 4:
                 raise Unsupported("too many state-dependent tests in the warning condition")
+            # when the tests read the deepest open level they must be evaluated before the map is changed
+            if any(uses_deepest(i.test, p_lvl, par) for _w, conds in sites for i, _pol in conds):
+                first_if = min((conds[-1][0] for _w, conds in sites), key=lambda n_: n_.lineno)
+                for o in ops:
+                    st_o = o[2] if o[2] in upd.node.body else cfg.stmt_of(o[2])
+                    if st_o.lineno < first_if.lineno:
+                        raise Unsupported("the warning condition reads max(open levels) after the level map has already been changed")
             bad = None
             names = sorted(free_atoms)
             for vals in itertools.product((True, False), repeat=len(names)):
                 free = dict(zip(names, vals))
-                for pv in range(0, 9):
-                    for d in range(1, 13):
-                        emitted = sum(all(eval_level_condition(i.test, pv + d, pv, p_lvl, par, free) == pol for i, pol in conds) for _w, conds in sites)
-                        if (emitted >= 1) != (d >= 2) and bad is None:
-                            bad = (pv, d, emitted, free)
+                # states: deepest open level M, new level L, parent p = max open level below L (p == M when M < L)
+                for mv in range(0, 9):
+                    for lv in range(1, 11):
+                        for pv in ([mv] if mv < lv else range(0, lv)):
+                            emitted = sum(all(eval_level_condition(i.test, lv, pv, p_lvl, par, free, mv) == pol for i, pol in conds) for _w, conds in sites)
+                            if (emitted >= 1) != (lv - mv >= 2) and bad is None:
+                                bad = (mv, pv, lv, emitted, free)
             cond_txt = " | ".join(" and ".join(("" if pol else "not ") + short(i.test, 70) for i, pol in reversed(conds)) for _w, conds in sites)
             outer = sites[0][1][-1][0]
             if bad:
-                pv, d, emitted, free = bad
+                mv, pv, lv, emitted, free = bad
                 hist = ""
                 if free:
                     hist = " when " + " and ".join(f"`{n}` is {v}" for n, v in free.items()) + "; " + "; ".join(
                         f"`{n}` reads self.{free_atoms[n][0]}, which {free_atoms[n][1]} changes during the render, so whether a skip is reported depends on what was rendered before" for n in free
                     )
+                shape = (
+                    "an upward skip that must be reported" if lv - mv >= 2 else ("a sibling / step down after an earlier skip, not a new upward skip" if lv <= mv else "a consecutive level")
+                )
                 rep.violation(
                     "C05.R3",
                     k,
                     base.site(outer),
-                    f"with the parent at level {pv} and the heading at level {pv + d} the warning is {'emitted' if emitted else 'not emitted'}{hist}; "
-                    f"required: exactly when the heading skips at least one level (condition: `{cond_txt}`)",
+                    f"preceding heading (deepest open level) H{mv}, new heading H{lv}, attached below H{pv}: {shape}, but the warning is {'emitted' if emitted else 'not emitted'}{hist}; "
+                    f"required: exactly one warning for each heading that is two or more levels deeper than the preceding heading (condition: `{cond_txt}`)",
                 )
             else:
-                rep.ok("C05.R3", k, base.site(outer), "emitted for every skip of 2..12 levels above a parent at level 0..8, never for a consecutive level")
+                rep.ok("C05.R3", k, base.site(outer), "emitted exactly when the new level exceeds the deepest open level by 2 or more (deepest 0..8, level 1..10, every consistent parent)")
             # nothing but the message and the warning inside the branch (not re-judged when the condition is already a violation)
             for _w, conds in sites if not bad else []:
                 for st in ast.walk(conds[-1][0]):
@@ -1911,39 +1964,135 @@ def _is_match_titles_flag(corpus: Corpus, fi: FunctionInfo, name: str, depth: in
     return True
 
 
-def _falsified_by_default(corpus: Corpus, fn: FunctionInfo, extra: list[tuple[ast.expr, bool]]) -> str | None:
-    """If some extra fact tests a parameter of ``fn`` (``p``, ``p is None``, ``p is not None``) whose constant default makes it
-    false, and a caller leaves that parameter to its default: a sentence naming parameter and caller."""
+def _caller_witness(corpus: Corpus, fn: FunctionInfo, write_facts, restore_extra) -> str | None:
+    """A caller of ``fn`` for which every fact guarding the change holds while some extra fact guarding the restore is false.
+    Facts test parameters (``p``, ``p is None``, ``p is not None``): an omitted parameter takes its constant default, a constant
+    argument its value, any other explicitly passed argument counts as 'not None'."""
+    defaults = _param_defaults(fn)
+
+    def fact_for(call: ast.Call, t: ast.expr, pol: bool) -> bool | None:
+        if isinstance(t, ast.Name):
+            pname, kind = t.id, "truth"
+        elif isinstance(t, ast.Compare) and len(t.ops) == 1 and isinstance(t.ops[0], (ast.Is, ast.IsNot)) and isinstance(t.left, ast.Name) and isinstance(t.comparators[0], ast.Constant) and t.comparators[0].value is None:
+            pname, kind = t.left.id, ("is" if isinstance(t.ops[0], ast.Is) else "isnot")
+        else:
+            return None
+        if pname not in fn.params or name_assignments(fn, pname):
+            return None
+        idx = fn.params.index(pname) - (1 if fn.params and fn.params[0] == "self" else 0)
+        arg = kwarg(call, pname)
+        if arg is None and 0 <= idx < len(call.args):
+            arg = call.args[idx]
+        if arg is None:
+            arg = defaults.get(pname)
+            if not isinstance(arg, ast.Constant):
+                return None
+        if isinstance(arg, ast.Constant):
+            val = bool(arg.value) if kind == "truth" else ((arg.value is None) if kind == "is" else (arg.value is not None))
+        elif kind == "truth":
+            return None
+        else:
+            val = kind == "isnot"  # an explicitly passed, non-constant argument is taken to be not None
+        return val == pol
+
+    for cf, call in _callers_by_name(corpus, fn.name):
+        if any(isinstance(x, ast.Starred) for x in call.args) or any(kw.arg is None for kw in call.keywords):
+            continue
+        if not all(fact_for(call, t, pol) is True for t, pol in write_facts):
+            continue
+        for t, pol in restore_extra:
+            if fact_for(call, t, pol) is False:
+                return f"{cf.qualname} ({cf.module.site(call)}) calls it so that the change happens but `{('' if pol else 'not ') + unparse(t)}` is false"
+    return None
+
+
+def _param_defaults(fn: FunctionInfo) -> dict[str, ast.expr]:
     a = fn.node.args
     pos = a.posonlyargs + a.args
-    defaults: dict[str, ast.expr] = {}
+    out: dict[str, ast.expr] = {}
     for arg, dv in zip(pos[len(pos) - len(a.defaults):], a.defaults):
-        defaults[arg.arg] = dv
+        out[arg.arg] = dv
     for arg, dv in zip(a.kwonlyargs, a.kw_defaults):
         if dv is not None:
-            defaults[arg.arg] = dv
-    for t, pol in extra:
-        pname, holds = None, None
-        if isinstance(t, ast.Name) and t.id in defaults and isinstance(defaults[t.id], ast.Constant):
-            pname, holds = t.id, bool(defaults[t.id].value) == pol
-        elif isinstance(t, ast.Compare) and len(t.ops) == 1 and isinstance(t.ops[0], (ast.Is, ast.IsNot)) and isinstance(t.left, ast.Name) and t.left.id in defaults and isinstance(t.comparators[0], ast.Constant) and t.comparators[0].value is None and isinstance(defaults[t.left.id], ast.Constant):
-            pname = t.left.id
-            is_none = defaults[pname].value is None
-            holds = (is_none if isinstance(t.ops[0], ast.Is) else not is_none) == pol
-        if pname is None or holds or name_assignments(fn, pname):
-            continue
-        idx = fn.params.index(pname) - (1 if fn.params and fn.params[0] == "self" else 0)
-        for cf, call in _callers_by_name(corpus, fn.name):
-            if any(isinstance(x, ast.Starred) for x in call.args) or any(kw.arg is None for kw in call.keywords):
-                continue
-            if kwarg(call, pname) is None and len(call.args) <= idx:
-                return f"`{pname}` defaults to {unparse(defaults[pname])} and {cf.qualname} ({cf.module.site(call)}) does not pass it"
-    return None
+            out[arg.arg] = dv
+    return out
+
+
+def _fact_under_defaults(fn: FunctionInfo, t: ast.expr, pol: bool) -> bool | None:
+    """Truth of the branch fact (t, pol) for a caller that leaves the tested parameter to its constant default; None if unknown."""
+    defaults = _param_defaults(fn)
+    val = None
+    if isinstance(t, ast.Name) and t.id in defaults and isinstance(defaults[t.id], ast.Constant) and not name_assignments(fn, t.id):
+        val = bool(defaults[t.id].value)
+    elif isinstance(t, ast.Compare) and len(t.ops) == 1 and isinstance(t.ops[0], (ast.Is, ast.IsNot)) and isinstance(t.left, ast.Name) and t.left.id in defaults and isinstance(t.comparators[0], ast.Constant) and t.comparators[0].value is None and isinstance(defaults[t.left.id], ast.Constant) and not name_assignments(fn, t.left.id):
+        is_none = defaults[t.left.id].value is None
+        val = is_none if isinstance(t.ops[0], ast.Is) else not is_none
+    return None if val is None else (val == pol)
+
+
+def _offset_terms(e: ast.expr, param: str | None, param_value: int | None = None, option_ok: bool = False, cell_names: frozenset = frozenset()) -> list | None:
+    """Signed sum over CELL (a read of _heading_offset), PARAM, OPTION (options['heading-offset']) and an integer constant."""
+
+    def rec(x):
+        if isinstance(x, ast.BinOp) and isinstance(x.op, (ast.Add, ast.Sub)):
+            l, r = rec(x.left), rec(x.right)
+            if l is None or r is None:
+                return None
+            sg = 1 if isinstance(x.op, ast.Add) else -1
+            return l + [(sg * s_, t_) for s_, t_ in r]
+        if isinstance(x, ast.BoolOp) and isinstance(x.op, ast.Or) and len(x.values) == 2 and isinstance(x.values[1], ast.Constant) and x.values[1].value == 0:
+            return rec(x.values[0])
+        if is_attr(x, OFFSET) or (isinstance(x, ast.Name) and x.id in cell_names):
+            return [(1, "CELL")]
+        if isinstance(x, ast.Name) and param is not None and x.id == param:
+            return [(1, "PARAM")] if param_value is None else ([(1, param_value)] if param_value else [])
+        if isinstance(x, ast.Constant) and isinstance(x.value, int) and not isinstance(x.value, bool):
+            return [(1, x.value)] if x.value else []
+        if option_ok and _is_offset_option(x):
+            return [(1, "OPTION")]
+        return None
+
+    ts = rec(e)
+    if ts is None:
+        return None
+    const = sum(s_ * t_ for s_, t_ in ts if isinstance(t_, int))
+    out = sorted(((s_, t_) for s_, t_ in ts if not isinstance(t_, int)), key=lambda z: (z[1], z[0]))
+    # cancel +X -X
+    res = []
+    for nm in sorted({t_ for _s, t_ in out}):
+        n = sum(s_ for s_, t_ in out if t_ == nm)
+        res += [(1 if n > 0 else -1, nm)] * abs(n)
+    if const:
+        res.append((1 if const > 0 else -1, abs(const)))
+    return res
+
+
+def _offset_terms_text(ts: list) -> str:
+    names = {"CELL": "the enclosing offset", "PARAM": "the parameter", "OPTION": "the :heading-offset: option"}
+    if not ts:
+        return "0"
+    out = ""
+    for s_, t_ in ts:
+        out += (" + " if s_ > 0 else " - ") + names.get(t_, str(t_))
+    return out[3:] if out.startswith(" + ") else out.strip()
+
+
+def _is_offset_option(v: ast.expr) -> bool:
+    return (
+        isinstance(v, ast.Call)
+        and isinstance(v.func, ast.Attribute)
+        and v.func.attr == "get"
+        and is_attr(v.func.value, "options")
+        and bool(v.args)
+        and isinstance(v.args[0], ast.Constant)
+        and v.args[0].value == "heading-offset"
+        and (len(v.args) < 2 or (isinstance(v.args[1], ast.Constant) and v.args[1].value == 0))
+    ) or (isinstance(v, ast.Subscript) and is_attr(v.value, "options") and isinstance(v.slice, ast.Constant) and v.slice.value == "heading-offset")
 
 
 @rule("C05.R4")
 def r4_save_restore(corpus: Corpus, rep: Report, tier: str):
-    rep.rule("C05.R4", "nested renders save and restore heading offset / level map (by copy) / temp root under one guard; temp root only for match_titles; include passes heading-offset; level = tag digit + offset")
+    rep.rule("C05.R4", "nested renders save and restore heading offset / level map (by copy) / temp root; no offset argument keeps the enclosing offset, an include adds its option to it; map re-rooted at a temp root, passed only for match_titles; level = tag digit + offset")
     base, rh, upd = _renderer_funcs(corpus)
     nrt = base.func(f"{RENDERER}.nested_render_text")
     rep.saw_function(nrt.fq)
@@ -2076,8 +2225,10 @@ def r4_save_restore(corpus: Corpus, rep: Report, tier: str):
             rep.violation("C05.R4", k, base.site(rs[0][0]), f"{CELL_TXT[cell]} is also assigned something other than `{name}` after the yield")
             continue
         gres = _guard_set(cfg, good[0])
-        if not gref and not cfg.paths_avoiding(yst, EXIT, lambda n: n in good):
-            gres = gref  # changed unconditionally and restored on every normal path after the yield (possibly in several branches)
+        if not cfg.paths_avoiding(yst, EXIT, lambda n: n in good) and not _guard_set(cfg, sst):
+            gres = gref  # saved unconditionally and restored on every normal path after the yield (possibly in several branches): covers every change
+        elif len(good) == 1 and gres < gref and _guard_set(cfg, sst) <= gres:
+            gres = gref  # restored also where it was not changed: harmless, the saved value is the unchanged one
         elif len(good) > 1:
             rep.error("C05.R4", f"{base.site(good[0])}: {CELL_TXT[cell]} is restored in {len(good)} places that do not cover every path after the yield: not comparable by this rule")
             continue
@@ -2085,16 +2236,15 @@ def r4_save_restore(corpus: Corpus, rep: Report, tier: str):
             # restored under a strictly stronger condition than it is changed: decidable when the extra facts test a parameter
             # whose default falsifies them and some caller relies on that default
             extra = [(t, pol) for t, pol in cfg.guards(good[0]) if (unparse(t), pol) not in gref]
-            witness = None
-            if gref < gres:
-                witness = _falsified_by_default(corpus, nrt, extra)
+            wfacts = cfg.guards(writes_pre[cell][0]) if cell in writes_pre else cfg.guards(writes_pre["root"][0])
+            witness = _caller_witness(corpus, nrt, wfacts, extra)
             if witness:
                 rep.violation(
                     "C05.R4",
                     k,
                     base.site(good[0]),
-                    f"{CELL_TXT[cell]} is changed before every nested render"
-                    + (f" with {' and '.join(sorted(t for t, _ in gref))}" if gref else "")
+                    f"{CELL_TXT[cell]} is changed before the nested render"
+                    + (f" when {' and '.join(sorted(t for t, _ in gref))}" if gref else " (always)")
                     + f" but only restored when {' and '.join(('' if pol else 'not ') + unparse(t) for t, pol in extra)}; {witness}: "
                     + ("after such a nested render (include, directive body, div, substitution) the heading offset of the enclosing include is lost and its remaining headings get the wrong level" if cell == "offset" else "after such a nested render the enclosing section state is not put back"),
                 )
@@ -2102,6 +2252,72 @@ def r4_save_restore(corpus: Corpus, rep: Report, tier: str):
                 rep.error("C05.R4", f"{base.site(good[0])}: {CELL_TXT[cell]} is restored under {sorted(gres)} but changed under {sorted(gref)}: conditions not comparable by this rule")
             continue
         rep.ok("C05.R4", k, base.site(good[0]), f"saved as `{name}`" + (" (copy)" if cell == "map" else "") + f", restored under {sorted(t for t, _ in gref) or 'no condition'}")
+
+    # a nested render that passes no heading offset keeps the enclosing one
+    off_param = None
+    for w in writes_pre["offset"]:
+        for n in ast.walk(w.value):
+            if isinstance(n, ast.Name) and n.id in nrt.params:
+                off_param = n.id
+    if off_param is None:
+        raise Unsupported("the heading offset written before the yield does not come from a parameter of nested_render_text")
+    dflt = _param_defaults(nrt).get(off_param)
+    k = f"{cm.fq}|a nested render that passes no heading offset keeps the enclosing one"
+    if not isinstance(dflt, ast.Constant):
+        raise Unsupported(f"parameter `{off_param}` has no constant default")
+    verdict = None
+    for w in writes_pre["offset"]:
+        skipped = any(_fact_under_defaults(nrt, t, pol) is False for t, pol in cfg.guards(w))
+        if skipped:
+            continue
+        value = w.value if isinstance(w, ast.Assign) else ast.BinOp(left=w.target, op=w.op, right=w.value)
+        saved_offset_names = frozenset(nm for nm, _how, sst_ in saves.get("offset", []) if cfg.dominates(sst_, w) and len(name_assignments(cm, nm)) == 1)
+        ts = _offset_terms(value, off_param, dflt.value if isinstance(dflt.value, int) and not isinstance(dflt.value, bool) else None, cell_names=saved_offset_names)
+        if ts is None:
+            raise Unsupported(f"offset written as `{short(value, 40)}`: not a sum of the current offset, the parameter and constants")
+        if ts != [(1, "CELL")]:
+            verdict = (w, ts)
+    if verdict is None:
+        rep.ok("C05.R4", k, base.site(writes_pre["offset"][0]), f"`{off_param}` defaults to {unparse(dflt)}: the offset is not changed / changed to itself")
+    else:
+        w, ts = verdict
+        rep.violation(
+            "C05.R4",
+            k,
+            base.site(w),
+            f"`{short(w, 50)}` also runs when the caller passes no `{off_param}` (default {unparse(dflt)}) and sets the offset to {_offset_terms_text(ts)}: the body of a directive, a ::: div, a block "
+            "substitution or a nested include inside a file included with :heading-offset: is rendered without that offset (its sections close the including document's section, its rubrics record the raw level)",
+        )
+
+    # under a temp root the level map is re-rooted at it, so sections of the nested text do not land in the surrounding sections
+    k = f"{cm.fq}|level map re-rooted at the temp root for the nested render"
+    root_val = writes_pre["root"][0].value
+    reroots = [w for w in writes_pre.get("map", []) if isinstance(w, ast.Assign)]
+    good_reroot = None
+    for w in reroots:
+        v = w.value
+        same = lambda e: unparse(e) == unparse(root_val)  # noqa: E731
+        if isinstance(v, ast.DictComp) and len(v.generators) == 1 and not v.generators[0].ifs and same(v.value) and _map_keys_iter(v.generators[0].iter) in ("keys", "items"):
+            tgt = v.generators[0].target
+            kv = tgt.id if isinstance(tgt, ast.Name) else (tgt.elts[0].id if isinstance(tgt, ast.Tuple) and isinstance(tgt.elts[0], ast.Name) else None)
+            if kv is not None and isinstance(v.key, ast.Name) and v.key.id == kv:
+                good_reroot = w
+        elif isinstance(v, ast.Call) and dotted(v.func) == "dict.fromkeys" and len(v.args) == 2 and _map_keys_iter(v.args[0]) == "keys" and same(v.args[1]):
+            good_reroot = w
+        elif isinstance(v, ast.Dict) and len(v.keys) == 1 and isinstance(v.keys[0], ast.Constant) and v.keys[0].value == 0 and same(v.values[0]):
+            good_reroot = w
+    if good_reroot is not None and _guard_set(cfg, good_reroot) == _guard_set(cfg, writes_pre["root"][0]):
+        rep.ok("C05.R4", k, base.site(good_reroot), f"every open level maps to {unparse(root_val)} while the temp root is set")
+    elif reroots:
+        raise Unsupported(f"the level map is rewritten before the yield as `{short(reroots[0].value, 50)}`: not recognised as re-rooting at the temp root")
+    else:
+        rep.violation(
+            "C05.R4",
+            k,
+            base.site(writes_pre["root"][0]),
+            f"a temp root is set ({short(writes_pre['root'][0], 50)}) but the level map still points at the surrounding document's open sections: the section a heading opens in the body of a "
+            "match_titles directive ({only}, {py:function}, ...) is appended to the surrounding section instead of the directive's node, so it and the text below it leave the directive and land after later siblings",
+        )
 
     # callers of nested_render_text
     mk = corpus.mod("mocking")
@@ -2169,26 +2385,36 @@ def r4_save_restore(corpus: Corpus, rep: Report, tier: str):
             rep.ok("C05.R4", f"{fi.fq}|no temp root|{short(c, 70)}", site, "nested render without a temp root (sections only where the current node is a document/section)")
         if fi.module.name.endswith(".mocking") and fi.qualname == "MockIncludeDirective.run":
             n_off += 1
-            k = f"{fi.fq}|include passes the heading-offset option"
+            k = f"{fi.fq}|include adds its heading-offset option to the enclosing offset"
             v = ho
             if isinstance(v, ast.Name):
                 v = single_def(fi, v.id) or v
-            good = (
-                isinstance(v, ast.Call)
-                and isinstance(v.func, ast.Attribute)
-                and v.func.attr == "get"
-                and is_attr(v.func.value, "options")
-                and v.args
-                and isinstance(v.args[0], ast.Constant)
-                and v.args[0].value == "heading-offset"
-                and (len(v.args) < 2 or (isinstance(v.args[1], ast.Constant) and v.args[1].value == 0))
-            ) or (isinstance(v, ast.Subscript) and is_attr(v.value, "options") and isinstance(v.slice, ast.Constant) and v.slice.value == "heading-offset")
-            if good:
-                rep.ok("C05.R4", k, site, f"heading_offset={short(ho, 50)}")
-            elif ho is None or isinstance(v, ast.Constant):
-                rep.violation("C05.R4", k, site, f"the include mock passes heading_offset={unparse(ho) if ho is not None else '<default 0>'}: the :heading-offset: option has no effect on the included headings")
+            arg_ts = _offset_terms(v, None, None, option_ok=True) if v is not None else None
+            if ho is None or arg_ts is not None and not any(t_ == "OPTION" for _s, t_ in arg_ts):
+                rep.violation("C05.R4", k, site, f"the include mock passes heading_offset={unparse(ho) if ho is not None else '<default>'}: the :heading-offset: option has no effect on the included headings")
+            elif arg_ts is None:
+                rep.error("C05.R4", f"{site}: heading_offset={short(ho, 50)} not traced to options['heading-offset'] and the current offset")
             else:
-                rep.error("C05.R4", f"{site}: heading_offset={short(ho, 50)} not traced to options['heading-offset']")
+                # the offset in force inside the include: the pre-yield write with the parameter replaced by this argument
+                news = []
+                for w in writes_pre["offset"]:
+                    value = w.value if isinstance(w, ast.Assign) else ast.BinOp(left=w.target, op=w.op, right=w.value)
+                    wt = _offset_terms(value, off_param, cell_names=frozenset(nm for nm, _how, sst_ in saves.get("offset", []) if cfg.dominates(sst_, w) and len(name_assignments(cm, nm)) == 1))
+                    if wt is None:
+                        raise Unsupported(f"offset written as `{short(value, 40)}`")
+                    new = []
+                    for s_, t_ in wt:
+                        new += [(s_ * s2, t2) for s2, t2 in arg_ts] if t_ == "PARAM" else [(s_, t_)]
+                    news.append(sorted(new, key=lambda z: str(z[1])))
+                if len(news) != 1:
+                    raise Unsupported("several writes of the heading offset before the yield")
+                new = news[0]
+                if new == [(1, "CELL"), (1, "OPTION")]:
+                    rep.ok("C05.R4", k, site, f"heading_offset={short(ho, 60)}: inside the include the offset is the enclosing offset + the option")
+                elif new == [(1, "OPTION")]:
+                    rep.violation("C05.R4", k, site, f"inside the include the offset becomes the option alone (heading_offset={short(ho, 50)}): an include nested in a file that was itself included with :heading-offset: drops the enclosing offset, so its headings close the including document's sections")
+                else:
+                    rep.violation("C05.R4", k, site, f"inside the include the offset becomes {_offset_terms_text(new)} (heading_offset={short(ho, 50)}), not the enclosing offset + the :heading-offset: option")
         elif ho is not None:
             rep.error("C05.R4", f"{site}: {fi.qualname} passes heading_offset: caller not understood")
     if n_off != 1:
@@ -2538,7 +2764,7 @@ def mutants(corpus: Corpus):
             out.append(("c05-offset-restored-only-with-temp-root", "post-yield layout of the context manager not as expected"))
         if off_restore is not None:
             ind1 = " " * off_restore.col_offset
-            add("c05-offset-restored-only-if-offset-given", "C05.R4", base, off_restore, f"if heading_offset:\n{ind1}    " + seg(base, off_restore), expect="only restored when")
+            add("c05-offset-restored-only-for-inline-renders", "C05.R4", base, off_restore, f"if inline:\n{ind1}    " + seg(base, off_restore), expect="only restored when")
     # class: heading level read from a token field that does not encode the level for every heading producer
     tagd = find_node(rh, _is_tag_digit)
     add("c05-level-from-markup-length", "C05.R4", base, tagd, "len(token.markup)", expect="derived from the token's markup")
@@ -2550,6 +2776,30 @@ def mutants(corpus: Corpus):
         for mid, cond in (("c05-parent-fallback-any-other-open-level", f"k != {lv_}"), ("c05-parent-fallback-includes-own-level", f"k <= {lv_}")):
             add(mid, "C05.R3", base, sel_stmt,
                 f"{pn} = {lv_} - 1\n{ind}if {pn} not in self.{LEVEL_MAP}:\n{ind}    {pn} = max(k for k in self.{LEVEL_MAP} if {cond})", expect="parent level selection")
+    # ---- reverts of the repairs landed in /repo --------------------------------------------------------
+    # fce582c (a): a nested render without an offset argument reset the offset to the default 0
+    if cm is not None:
+        guard_if = find_node(cm, lambda n: isinstance(n, ast.If) and len(n.body) == 1 and isinstance(n.body[0], ast.Assign) and is_self_attr(n.body[0].targets[0], OFFSET))
+        dflt = _param_defaults(nrt).get("heading_offset")
+        if guard_if is not None and dflt is not None:
+            out.append(Mutant("c05-revert-fce582c-offset-reset-by-default", "C05.R4", base.rel,
+                              splice(splice(base.src, guard_if, seg(base, guard_if.body[0])), dflt, "0"), expect="keeps the enclosing one", canary=False))
+        else:
+            out.append(("c05-revert-fce582c-offset-reset-by-default", "guarded offset write / parameter default not found"))
+        # 4629fdf: the level map is not re-rooted at the temp root
+        reroot = find_node(cm, lambda n: isinstance(n, ast.Assign) and is_self_attr(n.targets[0], LEVEL_MAP) and isinstance(n.value, ast.DictComp))
+        add("c05-revert-4629fdf-map-not-rerooted", "C05.R4", base, reroot, "pass", expect="re-rooted at the temp root")
+    # fce582c (b): a nested include replaced the enclosing offset
+    if call is not None and kwarg(call, "heading_offset") is not None:
+        opt = next((n for n in ast.walk(kwarg(call, "heading_offset")) if _is_offset_option(n)), None)
+        if opt is not None and opt is not kwarg(call, "heading_offset"):
+            add("c05-revert-fce582c-include-replaces-offset", "C05.R4", mk, kwarg(call, "heading_offset"), seg(mk, opt), expect="heading-offset option")
+        else:
+            out.append(("c05-revert-fce582c-include-replaces-offset", "include does not add the option to the current offset"))
+    # 2e8531b: the skip warning compared with the parent level instead of the deepest open level
+    if wif is not None:
+        cmp_m = find_node(upd, lambda n: isinstance(n, ast.Compare) and any(x is n for x in ast.walk(wif.test)) and isinstance(n.comparators[0], ast.Call) and dotted(n.comparators[0].func) == "max")
+        add("c05-revert-2e8531b-warning-against-parent-level", "C05.R3", base, cmp_m.comparators[0] if cmp_m is not None else None, "parent_level", expect="non-consecutive warning iff")
     lvl = find_node(rh, lambda n: isinstance(n, ast.BinOp) and isinstance(n.op, ast.Add) and (is_self_attr(n.right, OFFSET) or is_self_attr(n.left, OFFSET)))
     if lvl is not None:
         add("c05-offset-subtracted", "C05.R4", base, lvl, f"{seg(base, lvl.left)} - {seg(base, lvl.right)}", expect="level = tag digit")
